@@ -6,8 +6,9 @@ from vlib.core import digest
 
 PROPERTY = "C02"
 LEVEL = "exploration"
-RULE = ("One scenario in each of 6 contexts {plain scenario, outline row} x {no background, feature background, feature + "
-        "rule background} followed by a sibling scenario; ALL outcome sequences over {pass, fail, error, pending, "
+RULE = ("One scenario in each of 10 contexts {plain scenario, outline row} x {no background, feature background, feature + "
+        "rule background}, plus outline rows whose inherited background steps are parametrised with <column> placeholders "
+        "at the feature level, the rule level or both, followed by a sibling scenario; ALL outcome sequences over {pass, fail, error, pending, "
         "undefined, skip, kbi, convert} of length <= 3 (quick) / <= 4 (thorough; 5 in the plain context), background steps "
         "drawing outcomes too; x {@wip} x {dry-run} x {continue_after_failed_step} x {sync, async step functions}. Oracle: "
         "predicted call log (which step function, in which scenario, in which order, inherited background first) and "
@@ -19,14 +20,30 @@ ASSUMPTIONS = ["continue_after_failed_step is documented for failed steps; after
                "sequences longer than the bound are not claimed (no random tail)"]
 
 OUT8 = ("pass", "fail", "error", "pending", "undefined", "skip", "kbi", "convert")
-CONTEXTS = (("S", 0), ("S", 1), ("S", 2), ("O", 0), ("O", 1), ("O", 2))
+CONTEXTS = (("S", 0), ("S", 1), ("S", 2), ("O", 0), ("O", 1), ("O", 2),
+            ("P1", 1), ("P1", 2), ("P2", 2), ("P3", 2))       # P<mask>: parametrised background levels
 
 
 def build(kind, nbg, seq, wip):
+    """kind "P<mask>" = outline row whose inherited background steps are parametrised (<oK> placeholders, bit k of
+    mask = k-th background level): the background outcomes then travel through extra examples columns"""
     own = tuple(seq[nbg:])
     tags = ("wip",) if wip else ()
-    item = P.S(own, tags) if kind == "S" else P.O((own,), tags, ncols=len(own))
     sib = P.S(("pass",))
+    if kind.startswith("P"):
+        mask = int(kind[1:])
+        n = len(own)
+        row = own + tuple(seq[:nbg])
+        item = P.O((row,), tags, ncols=len(row))
+        # the outline's own steps use columns 0..n-1; parametrised background level k uses column n+k
+        bgs = [("<o%d>" % (n + k)) if mask >> k & 1 else seq[k] for k in range(nbg)]
+        sib = P.O((("pass",) * len(row),), ncols=len(row))
+        item = ("O", item[1], n, item[3])
+        sib = ("O", sib[1], n, sib[3])
+        if nbg == 1:
+            return (P.F((item, sib), bg=(bgs[0],)),)
+        return (P.F((P.R((item, sib), bg=(bgs[1],)),), bg=(bgs[0],)),)
+    item = P.S(own, tags) if kind == "S" else P.O((own,), tags, ncols=len(own))
     if nbg == 0:
         f = P.F((item, sib))
     elif nbg == 1:
@@ -62,8 +79,8 @@ def run_case(case):
         d["async"] = str(bool(asyn))
     nt = digest(case) if any(o != "pass" for o in seq) else None
     firstbad = next((o for o in seq if o != "pass"), "none")
-    return {"v": v, "nt": nt, "out": (kind, nbg, firstbad, wip, dry, cafs, tuple(obs["steps"].get((0, 0) if nbg < 2 else (0, 0, 0),
-                                                                                 obs["steps"].get((0, 0, 0), ())))[:4]),
+    first = sorted(obs["steps"])[0] if obs["steps"] else None
+    return {"v": v, "nt": nt, "out": (kind, nbg, firstbad, wip, dry, cafs, tuple(obs["steps"].get(first, ()))[:4]),
             "dg": (obs["verdict"], sorted(obs["steps"].items()), obs["calls"])}
 
 
@@ -177,7 +194,7 @@ def history_cases(tier):
 
 def run(ctx):
     ctx.bounds = {"sequence_length": 3 if ctx.quick else "4 (5 in the plain context over 6 outcomes)",
-                  "contexts": 6, "switch_combinations": 8, "history_runs": 2 if ctx.quick else 3}
+                  "contexts": len(CONTEXTS), "switch_combinations": 8, "history_runs": 2 if ctx.quick else 3}
     ctx.sweep(run_case, cases(ctx.tier), chunk=64, name="outcome sequences x contexts x switches")
     ctx.sweep(history_case, history_cases(ctx.tier), chunk=32, name="re-run histories of one model object")
     ctx.guard(len(ctx.outcomes) > 200, "at least 200 distinct observed outcome classes")
